@@ -68,8 +68,8 @@ def run(ctx) -> None:
         r20_1(ctx, ctx.unit(short))
     r20_2(ctx)
     r20_3(ctx)
-    ctx.floor("streaming_units", 28)
-    ctx.floor("pull_loops", 25)
+    ctx.floor("streaming_units", 20)
+    ctx.floor("pull_loops", 15)
     ctx.floor("windows_checked", 3)
 
 
